@@ -118,7 +118,7 @@ func (m *c01) AtQuiescence() {
 			np := 0
 			for _, t := range mt.Targets {
 				for _, o := range mt.Ops[t] {
-					if !o.Del && strings.Contains(o.V, PoisonValue) {
+					if !o.Del && strings.Contains(o.V, PoisonFor(t)) {
 						np++
 						break
 					}
